@@ -57,6 +57,21 @@ inductive Val where
   | u32s (l : List Nat)
   deriving DecidableEq, Repr, Inhabited
 
+/-- a scalar value: neither void nor a slice -/
+def Val.scalar : Val → Bool
+  | .none => false
+  | .u32s _ => false
+  | _ => true
+
+def Val.isSlice : Val → Bool
+  | .u32s _ => true
+  | _ => false
+
+/-- the slice of a slice value, `[]` otherwise -/
+def Val.sliceD : Val → List Nat
+  | .u32s l => l
+  | _ => []
+
 /-- first-seen-order de-duplication (what `Uint32SlicePush` does to its argument) -/
 def dedupAcc : List Nat → List Nat → List Nat
   | acc, [] => acc
